@@ -622,6 +622,57 @@ fn random_history(rng: &mut Rng, out: &mut Out) -> Vec<Item> {
 	s
 }
 
+/// both background tasks fail in the same scheduling round: the send task is held in the transport
+/// send (which will fail), the read task before `receive` (which will yield an error); then every
+/// gate opens at once — "first cause wins", and it must be one cause for everybody
+fn simultaneous_history(rng: &mut Rng, out: &mut Out) -> Vec<Item> {
+	out.count("simultaneous_failures");
+	let mut s = vec![];
+	for _ in 0..rng.below(3) {
+		s.push(extra_front(rng));
+	}
+	if rng.chance(1, 2) {
+		s.push(Item::Answer(true));
+	}
+	s.push(Item::Gate("send", false));
+	s.push(Item::Gate("recv", false));
+	if rng.chance(1, 3) {
+		s.push(Item::Gate("close", false));
+	}
+	s.push(Item::Front(Front::Call));
+	if rng.chance(1, 2) {
+		s.push(extra_front(rng));
+	}
+	if rng.chance(4, 5) {
+		out.count("fault.send_err");
+		s.push(Item::FaultSend);
+	}
+	match rng.below(3) {
+		0 => {
+			out.count("fault.recv_err");
+			s.push(Item::FaultRecv)
+		}
+		1 => {
+			out.count("fault.peer_close");
+			s.push(Item::FaultPeer)
+		}
+		_ => {
+			out.count("fault.garbage");
+			s.push(Item::Garbage)
+		}
+	}
+	if rng.chance(1, 2) {
+		s.push(extra_front(rng));
+	}
+	s.push(Item::Gate("all", true));
+	if rng.chance(1, 2) {
+		s.push(extra_front(rng));
+	}
+	s.push(Item::End);
+	s.push(extra_front(rng));
+	s
+}
+
 /// histories outside the text model (invalid UTF-8, nesting beyond serde_json's recursion limit) or
 /// with a tiny front channel (callers block on it): oracle only
 fn unmodelled_history(rng: &mut Rng, out: &mut Out, caseno: u64) -> Vec<String> {
@@ -682,7 +733,7 @@ fn rt_scenario(name: &'static str, timeout_ms: u64) -> RtResult {
 	install_panic_hook();
 	let rt = tokio::runtime::Builder::new_current_thread().enable_time().build().unwrap();
 	let t = Duration::from_millis(timeout_ms);
-	let slack = Duration::from_millis(400);
+	let slack = Duration::from_millis(600);
 	let prompt = Duration::from_millis(timeout_ms / 2);
 	let mut worst = 0u128;
 	let ok = rt.block_on(async {
@@ -834,6 +885,11 @@ fn main() {
 			caseno += 1;
 			if i % 10 == 9 {
 				lines.extend(unmodelled_history(&mut rng, &mut out, caseno));
+			} else if i % 10 == 3 || i % 10 == 7 {
+				let script = simultaneous_history(&mut rng, &mut out);
+				let str_ids = rng.chance(1, 4);
+				let cap = rng.range(1, 3);
+				lines.extend(render(&mut rng, &mut out, caseno, str_ids, cap, &script));
 			} else {
 				let script = random_history(&mut rng, &mut out);
 				let str_ids = rng.chance(1, 4);
@@ -852,7 +908,7 @@ fn main() {
 	}
 	if a.replay.is_none() {
 		// wall-clock clause as a real-time test
-		let timeout_ms = 300u64;
+		let timeout_ms = 600u64;
 		let rounds = if thorough { 3 } else { 1 };
 		let mut worst = 0u128;
 		let mut n_ok = 0;
@@ -868,7 +924,7 @@ fn main() {
 			}
 		}
 		out.notes.push(format!(
-			"wall-clock clause is a TEST, not a theorem: {} real-time scenarios (request_timeout {timeout_ms} ms, unpaused clock) — silent server, send task stuck in the transport, front channel full, receive error / garbage / send error while calls, subscribes and batches are pending, transport close that never returns; {n_ok} passed; slowest resolution {worst} ms (bound: request_timeout + 400 ms slack; failures with a cause must arrive within {} ms)",
+			"wall-clock clause is a TEST, not a theorem: {} real-time scenarios (request_timeout {timeout_ms} ms, unpaused clock) — silent server, send task stuck in the transport, front channel full, receive error / garbage / send error while calls, subscribes and batches are pending, transport close that never returns; {n_ok} passed; slowest resolution {worst} ms (bound: request_timeout + 600 ms slack; failures with a cause must arrive within {} ms)",
 			rounds * RT_SCENARIOS.len(),
 			timeout_ms / 2
 		));
